@@ -107,14 +107,22 @@ def gen_workload(rng):
       base_dir = root
     if name == "":
       have_empty_name = True
-      fname = (rng.choice(ADV_SCRIPT) if adversarial else "script") + ext
+      stem = rng.choice(ADV_SCRIPT) if adversarial else "script"
+      fname = stem + ext
       path = os.path.join(root, "scripts", fname)
+      if rng.random() < 0.5:
+        # importlab names a requested file under the python path after its
+        # path (scripts/h$.py -> "scripts.h$"), whatever characters it has;
+        # nothing can import such a module, but it can be requested
+        name = "scripts." + stem
     elif is_init:
       path = os.path.join(base_dir, *parts, "__init__" + ext)
     else:
       path = os.path.join(base_dir, *name.split(".")) + ext
     modules.append({"id": len(modules), "name": name, "kind": kind,
                     "path": path, "stub": stub})
+    if name.startswith("scripts."):
+      modules[-1]["script"] = True
   if not modules:
     modules.append({"id": 0, "name": "a", "kind": "Local",
                     "path": os.path.join(root, "a.py"), "stub": False})
@@ -125,8 +133,8 @@ def gen_workload(rng):
   acyclic = rng.random() < 0.35
   for a in range(n):
     for b in range(n):
-      if a == b or modules[b]["name"] == "":
-        continue   # a script without a module name cannot be imported
+      if a == b or modules[b]["name"] == "" or modules[b].get("script"):
+        continue   # a script (no module name, or not an identifier) cannot be imported
       if acyclic and a > b:
         continue
       if modules[a]["kind"] in ("System", "Builtin") and rng.random() < 0.8:
@@ -136,7 +144,7 @@ def gen_workload(rng):
   if not acyclic and n >= 2 and rng.random() < 0.6:
     # plant an explicit cycle of random length through analysable modules
     cand = [m["id"] for m in modules if m["kind"] in ("Local", "Direct")
-            and not m["stub"] and m["name"]]
+            and not m["stub"] and m["name"] and not m.get("script")]
     if len(cand) >= 2:
       k = rng.randrange(2, len(cand) + 1)
       cyc = rng.sample(cand, k)
@@ -281,7 +289,8 @@ def _thin_cycle_deps(deps, seed):
 
 class Step:
   __slots__ = ("edge", "argv", "input", "output", "imports_info",
-               "report_errors", "reads", "imports_values", "module_name")
+               "report_errors", "reads", "imports_values", "module_name",
+               "imports_items")
 
 
 def read_plan(planned):
@@ -315,12 +324,14 @@ def read_plan(planned):
     s.module_name = ns.module_name
     s.imports_info = ns.imports_map
     vals = []
+    s.imports_items = {}
     if isinstance(s.imports_info, str) and fs.has(s.imports_info):
       import types
       builder = m["iml"].ImportsMapBuilder(types.SimpleNamespace(open_function=fs.open))
       im = builder.build_from_file(s.imports_info)
       if im is not None:
         vals = [v for v in im.items.values() if v != os.devnull]
+        s.imports_items = dict(im.items)
     s.imports_values = sorted(set(vals))
     s.reads = set(s.imports_values)
     if s.input:
@@ -377,6 +388,15 @@ def static_oracles(wl, planned, plan, steps):
     if not s.output.startswith(pyi_dir):
       return {"class": "I6", "oracle": "paths",
               "what": "output %r is outside the output directory %r" % (s.output, pyi_dir)}
+    want_name = by_path[s.input]["name"]
+    if os.path.basename(s.input).startswith("__init__."):
+      want_name = want_name and want_name + ".__init__"   # pytype's convention
+    if want_name and s.module_name != want_name:
+      # the module name is derived from the path; a step that analyses the
+      # file under another name resolves its imports differently
+      return {"class": "I6", "oracle": "paths",
+              "what": "step for %r runs under module name %r, the planner was "
+                      "given %r" % (s.input, s.module_name, want_name)}
     for p in e.implicit + e.order_only:
       if p not in plan.producer and not fs.has(p):
         return {"class": "I6", "oracle": "paths",
